@@ -47,6 +47,21 @@ pub fn bind_templates(prefix: &str, l: usize, ops: Ops, mon: Monitors) -> Vec<Bo
     let n = |s: &str| format!("{prefix}/{s}");
     vec![
         wp(&n("bind_sibling"), vec![Var, Map(0), Map(1), Bind { lhs: 0, then: Rhs::FreshMapCap(2), els: Rhs::Node(2) }], vec![2], vec![3], 2, l, ops.clone(), mon.clone()),
+        // the node the closure builds reads a sibling of the bind's input that is exactly as high as the bind's change detector
+        wp(&n("bind_sibling_h1"), vec![Var, Map(0), Bind { lhs: 0, then: Rhs::FreshMapCap(1), els: Rhs::Node(1) }], vec![1], vec![2], 2, l, ops.clone(), mon.clone()),
+        // the closure builds and drops a node before building the one it returns; the bind's input is a bind that can grow taller
+        wp(
+            &n("garbage_height_adjust"),
+            vec![Var, Var, Map(1), Map(2), Map(3), Bind { lhs: 0, then: Rhs::Node(1), els: Rhs::Node(4) }, Bind { lhs: 5, then: Rhs::FreshGarbage(1), els: Rhs::Node(1) }],
+            vec![5],
+            vec![6],
+            1,
+            l,
+            ops.clone(),
+            mon.clone(),
+        ),
+        // a bind built inside a bind closure, whose own closure builds the node
+        wp(&n("bind_in_bind"), vec![Var, Var, Var, Bind { lhs: 0, then: Rhs::FreshBind(1, 2), els: Rhs::FreshBind(1, 2) }], vec![2], vec![3], 2, l, ops.clone(), mon.clone()),
         wp(&n("bind_two_fresh"), vec![Var, Var, Map(1), Bind { lhs: 0, then: Rhs::FreshMapCap(2), els: Rhs::FreshMap(2) }], vec![2], vec![3], 2, l, ops.clone(), mon.clone()),
         wp(&n("bind_chain"), vec![Var, Var, Bind { lhs: 0, then: Rhs::FreshChain(1), els: Rhs::FreshMapCap(1) }], vec![1], vec![2], 2, l, ops.clone(), mon.clone()),
         wp(
@@ -132,9 +147,9 @@ pub fn scenarios(prop: &str, tier: Tier) -> Vec<Box<dyn Scenario>> {
             // a closure that creates and drops a node, under a bind whose input grows taller
             v.push(wp(
                 "C04b/garbage_in_closure_height_adjust",
-                vec![Var, Var, Map(1), Map(2), Bind { lhs: 0, then: Rhs::Node(1), els: Rhs::Node(3) }, Bind { lhs: 4, then: Rhs::FreshGarbage(1), els: Rhs::Node(1) }],
-                vec![4],
+                vec![Var, Var, Map(1), Map(2), Map(3), Bind { lhs: 0, then: Rhs::Node(1), els: Rhs::Node(4) }, Bind { lhs: 5, then: Rhs::FreshGarbage(1), els: Rhs::Node(1) }],
                 vec![5],
+                vec![6],
                 1,
                 l,
                 Ops { write: true, observe: true, drop_obs: true, ..Ops::default() },
